@@ -207,7 +207,8 @@ class Ctx:
         for f in self.findings:
             if f.get("status", "open") != "open":
                 continue
-            if any(fnmatch.fnmatchcase(case_id, pat) for pat in f["match"]):
+            base_id = re.sub(r"@(brackets|lean|var|airy)$", "", case_id)       # a respelled case (progflow.respelled) is the same program
+            if any(fnmatch.fnmatchcase(case_id, pat) or fnmatch.fnmatchcase(base_id, pat) for pat in f["match"]):
                 if f.get("sig") and not re.search(f["sig"], sig or "", re.S):
                     continue
                 return f
@@ -296,8 +297,9 @@ MUST_COVER = {
     "C03": {"TshDyn.Step": _SCALAR + _CALLS + _SLICES},
     "C04": {"TshDyn.Step": _SCALAR + _CALLS + _SLICES + ["StmtWrite", "WriteFile", "ApplyExists", "ApplyRead", "ApplyAppCall"]},
     "C05": {"TshDyn.Step": _SCALAR + _CALLS + _SLICES},
-    "C08": {"TshDyn.Step": _SCALAR + _CALLS + _SLICES + ["StmtWrite", "WriteFile", "ApplyRead", "ApplyInput", "ApplyAppCall"]},
-    "C10": {"TshDyn.Step": _SCALAR + _CALLS + _SLICES},
+    # C08 is about the paths a string value takes (no jumps, no copy in its families); the base programs of C10 have loops without jumps
+    "C08": {"TshDyn.Step": [a for a in _SCALAR + _CALLS + _SLICES if a not in ("Break", "Continue", "ApplyCopy")] + ["StmtWrite", "WriteFile", "ApplyRead", "ApplyInput", "ApplyAppCall"]},
+    "C10": {"TshDyn.Step": [a for a in _SCALAR + _CALLS + _SLICES if a not in ("Break", "Continue")]},
     "C11": {"Lexer.Step": _LEX},
     "C16": {"Emit.Event": _EMIT},
     "C17": {"TshDyn.Step": ["StmtWrite", "WriteFile", "ApplyExists", "ApplyRead", "CallEnter", "IfDispatch"]},
